@@ -32,7 +32,7 @@ Print Assumptions C06_reject_assign_to_macro.
 Theorem C06_reject_macro_redefined : forall f s v,
   ctype s = TT_DEFINE -> ctype (next s) = TT_NAME ->
   let s2 := next (next s) in
-  (has_routine s2 (ctext s2) || is_executable (ctype s2) || is_type s2 TT_BEGIN || is_type s2 TT_WITH)%bool = false ->
+  (routine_start s2)%bool = false ->
   get_macro s2 (ctext (next s)) = Some v ->
   p_command (S f) s = PErr (cline s2).
 Proof. exact reject_macro_redefined. Qed.
@@ -41,7 +41,7 @@ Print Assumptions C06_reject_macro_redefined.
 Theorem C06_reject_macro_redefined_as_routine : forall f s v,
   ctype s = TT_DEFINE -> ctype (next s) = TT_NAME ->
   let s2 := next (next s) in
-  (has_routine s2 (ctext s2) || is_executable (ctype s2) || is_type s2 TT_BEGIN || is_type s2 TT_WITH)%bool = true ->
+  (routine_start s2)%bool = true ->
   get_macro s2 (ctext (next s)) = Some v ->
   p_command (S f) s = PErr (cline s2).
 Proof. exact reject_macro_redefined_as_routine. Qed.
@@ -58,7 +58,7 @@ Print Assumptions C06_reject_routine_redefined.
 Theorem C06_reject_nested_routine : forall f s,
   ctype s = TT_DEFINE -> ctype (next s) = TT_NAME ->
   let s2 := next (next s) in
-  (has_routine s2 (ctext s2) || is_executable (ctype s2) || is_type s2 TT_BEGIN || is_type s2 TT_WITH)%bool = true ->
+  (routine_start s2)%bool = true ->
   p_in_routine s2 = true ->
   p_command (S f) s = PErr (cline s2).
 Proof. exact reject_nested_routine. Qed.
